@@ -85,8 +85,11 @@ type Case struct {
 	Kind    string   `json:"kind"` // create | update | stop
 	Orig    Orig     `json:"orig"`
 	Req     []string `json:"req,omitempty"` // update: fields of the runtime's requested resources
-	Chain   []Script `json:"chain"`
-	Par     int      `json:"par,omitempty"` // number of identical requests in flight (different ids)
+	// ReqDevRules: the runtime's requested resources also carry device cgroup rules (part of
+	// LinuxResources; no plugin can change them)
+	ReqDevRules bool     `json:"req_dev_rules,omitempty"`
+	Chain       []Script `json:"chain"`
+	Par         int      `json:"par,omitempty"` // number of identical requests in flight (different ids)
 	// Pal selects the value palette the case is rendered with (render.go: plain, big numbers,
 	// negative numbers, odd strings).
 	Pal int `json:"pal,omitempty"`
@@ -363,6 +366,7 @@ func GenCase(t *rapid.T, b Bias) Case {
 			c.Orig.NilParts = rapid.Bool().Draw(t, "nilreq") // nil vs empty resources section
 		}
 		c.Share = gen.Uniform(t, "share", 4) == 0
+		c.ReqDevRules = gen.Uniform(t, "reqdevrules", 3) == 0
 	}
 	// chain: a non-empty subset of the pool, in chain order
 	n := rapid.IntRange(1, poolSize).Draw(t, "nchain")
